@@ -17,7 +17,7 @@ LEVEL_TEXT = ("Machine-checked Coq theorems over faithful models of the comparis
               "repr_cmp_same_base with its precision and digit shortcuts equals the order of the values for all bases, precisions and "
               "admissible digit estimates (the precision shortcut of the pinned tree, unsound for significands with precision+2 or more "
               "digits, is modelled separately, refuted, and was repaired), == is value equality on normalised representations, "
-              "normalize establishes the invariant (bases 2 and non-powers of two proved, 4/8/16/32 compared); (rationals) repr_eq/repr_cmp with their bit-length filters equal "
+              "normalize establishes the invariant for every base (all three branches), the specification order is a total order; (rationals) repr_eq/repr_cmp with their bit-length filters equal "
               "cross multiplication, RBig's structural ==/Hash is sound on reduced fractions. The models are tied to the code by a "
               "correspondence run that reads the real layout through a hook and replays the extracted models on it.")
 LEVEL_NOTE = ("Trusted: Coq kernel, extraction (FastZ.v), zarith, the harness and the thin OCaml driver. Modelled, not verified: the Rust "
@@ -335,7 +335,7 @@ def flt_case(rng, tier):
 
 
 def flt_conv_case(rng, tier):
-    """values that went through a base conversion (the unrounded routes are the open finding class)"""
+    """values that went through a base conversion (rounded to the target precision since the repairs of convert_base)"""
     k = 2
     r = rng.choice(["from10", "from10", "from2", "from16_p", "same_p", "same_p", "from10_p", "from2_p"])
     if r in ("from10", "from10_p"):
